@@ -208,6 +208,7 @@ func (s *Session) RunPath(z *solver, prefix []Decision, maxSteps int, keepPC boo
 	if res.Status != "" {
 		return res
 	}
+	s.i.unwindKey, s.i.unwindTrace = "", nil
 	e := newExplorer(z)
 	e.res = res
 	e.prefix = prefix
@@ -223,6 +224,15 @@ func (s *Session) RunPath(z *solver, prefix []Decision, maxSteps int, keepPC boo
 			res.PC = e.pc
 			if res.Status == "done" {
 				res.Model = e.model("")
+			}
+		}
+		if res.Status == "inconclusive" {
+			res.Where = strings.Join(s.i.unwindTrace, " < ")
+			if res.Model == nil {
+				func() {
+					defer func() { recover() }()
+					res.Model = e.model("")
+				}()
 			}
 		}
 		if e.unknowns > 0 && res.Status == "done" {
